@@ -67,7 +67,7 @@ func selfTestImpl(prop, repo string) interface{} {
 		detail  string
 	}
 	res := make([]outcome, len(vs))
-	sem := make(chan struct{}, 8)
+	sem := make(chan struct{}, 12)
 	var wg sync.WaitGroup
 	for i, v := range vs {
 		wg.Add(1)
